@@ -3,8 +3,14 @@
 TLC checks the taint model (NoSecretInAnyChannel, NamespaceConfined, SignatureBoundToKid) and generates operation sequences;
 the Go driver replays them on the real node, byte-scans every output channel for every canary key in 8 encodings after every
 step, verifies every signature against every known public key, and runs every key-name class against the real validating
-wrapper over the real fs backend (decoys outside the key directory) and the real Vault backend (recording fake server)."""
+wrapper over the real fs backend (decoys outside the key directory) and the real Vault backend (recording fake server).
+
+Used only BY KEY ID (UnboundKidSelectsNothing, ArtefactNamesSigner, AuditNamesSigner): every operation that selects a key by
+id is requested for ids no key is bound to (empty, unknown, near misses of an existing kid, SQL wildcards, a storage name ...)
+while other keys exist and must select nothing; SignJWT / SignJWS get a `kid` among the caller supplied headers (empty, unbound,
+the requested key's, another key's) and the kid written into the artefact and named by the audit record must be the signer's."""
 import json, random, time
+from concurrent.futures import ThreadPoolExecutor
 from .. import vlib
 from ..vlib import Report, Inconclusive
 
@@ -14,8 +20,8 @@ NAME_CLASSES = ["uuid", "kid", "dotdot", "dotted", "dotdotslash", "slash", "abs"
                 "empty", "long300", "nul"]
 
 
-def _model(cfg, expect=None, coverage=False):
-    m = vlib.tlc("MCKeyStore", cfg, workers=8, timeout=900, coverage=coverage)
+def _model(cfg, expect=None, coverage=False, workers=8):
+    m = vlib.tlc("MCKeyStore", cfg, workers=workers, timeout=900, coverage=coverage)
     if m.error:
         raise Inconclusive("TLC %s: %s\n%s" % (cfg, m.error, m.raw[-1500:]))
     if expect:
@@ -32,11 +38,26 @@ JWK_CLASSES = ["none:-"] + ["pub:" + f for f in FAMILIES] + ["priv:" + f for f i
 REFUSED_TODAY = set(FAMILIES) | {"oct"}   # must mirror MCRefusedToday in MCKeyStore.tla (all families since the fix of F24)
 
 
+# 'used only by key id': classes of REQUEST key ids no key is bound to (MCKidClasses in MCKeyStore.tla) and of the `kid` a
+# caller may put among the headers of SignJWT / SignJWS (none | empty | unbound | the requested key | another key)
+KID_CLASSES = ["empty", "unknown", "prefix", "suffixed", "upper", "padded", "sqlwild", "sqlany", "name", "pct"]
+HDR_KIDS = ["none", "empty", "unbound", "same", "other"]
+
+
+def _hkclass(s):
+    hk = s.get("hk")
+    if hk in (None, "", "none"):
+        return ""
+    if hk in ("empty", "unbound"):
+        return hk
+    return "same" if hk == s.get("k") else "other"
+
+
 HELD_FAMILIES = ["EC-P256", "EC-P384", "EC-P521", "RSA", "Ed25519", "X25519"]   # X25519: not supported by the backends' PEM parser
 
 
 def _opkey(s):
-    return (s["a"],) + tuple(str(s.get(k, "")) for k in ("jwk", "nc", "b", "fam", "via"))
+    return (s["a"],) + tuple(str(s.get(k, "")) for k in ("jwk", "nc", "b", "fam", "via", "kc")) + (_hkclass(s),)
 
 
 def _features(b):
@@ -48,6 +69,11 @@ def _features(b):
         for k in (s.get("k"), s.get("to")):
             if k:
                 per_key.setdefault(k, []).append(s["a"])
+        if _hkclass(s) == "other":   # the key whose id the caller put among the headers: what happened to it before / after
+            per_key.setdefault(s["hk"], []).append(s["a"] + "-names-it")
+        if s["a"] == "UseUnbound":   # a request for an unbound id concerns every key of the store
+            for k in ("k1", "k2"):
+                per_key.setdefault(k, []).append("UseUnbound")
     for acts in per_key.values():
         for i in range(len(acts)):
             for j in range(i + 1, len(acts)):
@@ -109,7 +135,29 @@ def _fixed_scripts():
                       dict(a="Delete", k="k1"), dict(a="SignDeleted", k="k1"), dict(a="SignDeleted", k="k2"), dict(a="Exists", k="k1")]
             steps += [dict(a="New", k="k1"), dict(a="SignJWT", k="k1"), dict(a="Delete", k="k1")]
         fams.append(dict(id="fixed-key-family-%s" % fam, steps=steps))
-    return [dict(id="fixed-all-operations", steps=allops), dict(id="fixed-key-life-cycle", steps=life), dict(id="fixed-name-classes", steps=names)] + fams
+    # used only BY KEY ID: every class of request key id no key is bound to, and every class of caller supplied kid header on
+    # every entry point that takes caller headers (with and without a jwk header), in every state of the OTHER key: existing,
+    # deleted, the same key under an alias, re-created; once more on a store that holds imported keys of other families
+    def hdr(k, other):
+        st = []
+        for hk in ("none", "empty", "unbound", k, other):
+            st += [dict(a="SignJWT", k=k, hk=hk), dict(a="SignJWS", k=k, jwk="none:-", hk=hk), dict(a="SignJWS", k=k, jwk="pub:EC-P256", hk=hk)]
+        return st
+    byid = [dict(a="UseUnbound", kc="empty"), dict(a="UseUnbound", kc="unknown"), dict(a="New", k="k1"), dict(a="New", k="k2")]
+    byid += [dict(a="UseUnbound", kc=kc) for kc in KID_CLASSES] + hdr("k1", "k2") + hdr("k2", "k1")
+    byid += [dict(a="SignJWS", k="k1", jwk="priv:EC-P256", hk="k2"), dict(a="Delete", k="k2"), dict(a="SignDeleted", k="k2")] + hdr("k1", "k2")
+    byid += [dict(a="UseUnbound", kc=kc) for kc in ("empty", "prefix", "sqlwild", "name")]
+    byid += [dict(a="LinkKey", k="k2", to="k1")] + hdr("k2", "k1") + hdr("k1", "k2") + [dict(a="Delete", k="k1"), dict(a="SignDeleted", k="k2")]
+    byid += [dict(a="UseUnbound", kc=kc) for kc in ("empty", "unknown", "suffixed")] + [dict(a="New", k="k1"), dict(a="New", k="k2")] + hdr("k1", "k2")
+    byid += [dict(a="List")]
+    byfam = []
+    for fam in ("RSA", "Ed25519"):
+        byfam += [dict(a="Import", k="k1", fam=fam, via="link"), dict(a="Import", k="k2", fam="EC-P256", via="migrate")]
+        byfam += [dict(a="UseUnbound", kc=kc) for kc in KID_CLASSES]
+        byfam += [dict(a="SignJWT", k="k1", hk="k2"), dict(a="SignJWS", k="k1", jwk="none:-", hk="k2"), dict(a="SignJWS", k="k2", jwk="none:-", hk="k1"),
+                  dict(a="SignJWT", k="k2", hk="unbound"), dict(a="Delete", k="k1"), dict(a="Delete", k="k2")]
+    return [dict(id="fixed-all-operations", steps=allops), dict(id="fixed-key-life-cycle", steps=life), dict(id="fixed-name-classes", steps=names),
+            dict(id="fixed-by-key-id", steps=byid), dict(id="fixed-by-key-id-families", steps=byfam)] + fams
 
 
 def _sig(v):
@@ -120,6 +168,10 @@ def _sig(v):
         return sig
     if v["kind"] == "namespace-escape":
         return dict(kind=v["kind"], name_class=v.get("name_class"), backend=v.get("backend"))
+    if v["kind"] == "unbound-kid-selects-key":
+        return dict(kind=v["kind"], op=v.get("op"), kid_class=v.get("kid_class"))
+    if v["kind"] in ("artefact-names-other-key", "audit-names-other-key"):
+        return dict(kind=v["kind"], op=v.get("op"), hdr_kid=v.get("hdr_kid"))
     return dict(kind=v["kind"], op=v.get("op"))
 
 
@@ -144,16 +196,19 @@ def run(prop, tier, seed, replay=None):
     m, d = _model("KeyStore.quick.cfg" if quick else "KeyStore.thorough.cfg", coverage=not quick)
     models.append(d)
     if not quick:
-        for a in ("New", "SignJWT", "SignJWS", "SignDPoP", "SignLD", "SignTx", "Decrypt", "Resolve", "List", "Delete", "SignDeleted", "LinkKey", "LinkName", "UseName", "Import", "Exists", "JWE"):
+        for a in ("New", "SignJWT", "SignJWS", "SignDPoP", "SignLD", "SignTx", "Decrypt", "Resolve", "List", "Delete", "SignDeleted", "LinkKey", "LinkName", "UseName", "Import", "Exists", "JWE", "UseUnbound"):
             if not m.coverage.get(a):
                 raise Inconclusive("vacuity: action %s never fired in %s" % (a, d["cfg"]))
     # vacuity guards: every invariant is violated by the model variant with the corresponding deviation switched on
     # (the deviations '..' admitted by the name pattern and 'X25519 / oct jwk header not refused' were findings F23 / F24)
-    models.append(_model("KeyStore.dotdot.cfg", expect="NamespaceConfined")[1])
-    models.append(_model("KeyStore.deviant.cfg", expect="NoSecretInAnyChannel")[1])
-    models.append(_model("KeyStore.cache.cfg", expect="SignatureBoundToKid")[1])
-    models.append(_model("KeyStore.jwkfam.cfg", expect="NoCallerSecretEchoed")[1])
-    models.append(_model("KeyStore.errtext.cfg", expect="NoSecretInAnyChannel")[1])
+    # 'an unbound request kid selects a key' / 'a caller supplied kid header survives' are the deviations of the dimension
+    # 'used only by key id'
+    guards = [("KeyStore.dotdot.cfg", "NamespaceConfined"), ("KeyStore.deviant.cfg", "NoSecretInAnyChannel"), ("KeyStore.cache.cfg", "SignatureBoundToKid"),
+              ("KeyStore.jwkfam.cfg", "NoCallerSecretEchoed"), ("KeyStore.errtext.cfg", "NoSecretInAnyChannel"),
+              ("KeyStore.unbound.cfg", "UnboundKidSelectsNothing"), ("KeyStore.hdrkid.cfg", "ArtefactNamesSigner"), ("KeyStore.hdrkidaudit.cfg", "AuditNamesSigner")]
+    with ThreadPoolExecutor(max_workers=3) as pool:   # eight tiny models: the JVM start dominates
+        for md in pool.map(lambda ce: _model(ce[0], expect=ce[1], workers=2)[1], guards):
+            models.append(md)
     # 2. behaviours from the model
     g, gd = _model("KeyStore.gen.cfg" if quick else "KeyStore.gen.thorough.cfg")
     gd["behaviours"] = len(g.printed)
@@ -161,7 +216,16 @@ def run(prop, tier, seed, replay=None):
     if len(g.printed) < 50:
         raise Inconclusive("TLC generated only %d behaviours" % len(g.printed))
     chosen, nfeatures = _select(g.printed, 400 if quick else 3000, rnd)
-    scripts = _fixed_scripts() + [dict(id="b%05d" % i, steps=b) for i, b in enumerate(chosen)]
+    # ... and from the permissive variant of the dimension 'used only by key id' (every class of unbound request kid and of
+    # caller supplied kid header gives distinct terminal states there, so every class is witnessed in every life-cycle context)
+    g2, gd2 = _model("KeyStore.gen.byid.cfg" if quick else "KeyStore.gen.byid.thorough.cfg")
+    gd2["behaviours"] = len(g2.printed)
+    models.append(gd2)
+    byid = [b for b in g2.printed if any(s["a"] == "UseUnbound" or _hkclass(s) for s in b)]
+    if len(byid) < 50:
+        raise Inconclusive("TLC generated only %d behaviours for the by-key-id dimension" % len(byid))
+    chosen2, nfeatures2 = _select(byid, 150 if quick else 1000, rnd)
+    scripts = _fixed_scripts() + [dict(id="b%05d" % i, steps=b) for i, b in enumerate(chosen)] + [dict(id="i%05d" % i, steps=b) for i, b in enumerate(chosen2)]
     # 3. the real node
     try:
         results = vlib.run_driver_parallel(binary, dict(seed=seed, scripts=scripts), shards=6 if quick else 8, timeout=420 if quick else 900)
@@ -220,14 +284,15 @@ def run(prop, tier, seed, replay=None):
     cov = dict(evaluations=checks, distinct_nontrivial=len(set(json.dumps(s["steps"], sort_keys=True) for s in scripts)),
                rule="TLC generates operation sequences (one witness per distinct terminal state of the KeyStore model); a seeded "
                     "selection covering every (action, argument class) plus two fixed scripts (every operation incl. aliased key; every "
-                    "key-name class on the fs and Vault backends) is replayed on a whole in-process node with canary keys. evaluations = "
+                    "key-name class on the fs and Vault backends; every class of unbound request key id and of caller supplied kid header) is replayed on a whole in-process node with canary keys. evaluations = "
                     "channel scans + signature verifications (each against every known public key) + namespace checks; distinct_nontrivial = "
                     "number of distinct operation sequences replayed (every one creates/uses keys and is followed by scans of all channels)",
-               samples=samples, scripts_replayed=len(results), behaviours_available=len(g.printed), bytes_scanned=scanned,
+               samples=samples, scripts_replayed=len(results), behaviours_available=len(g.printed) + len(byid), bytes_scanned=scanned,
                bytes_scanned_per_channel=channels, signatures_verified=sigs, audit_records_scanned=audit,
                distinct_operation_classes=len(opkeys), operation_outcomes=outcomes, name_classes=len(NAME_CLASSES),
                jwk_header_classes=len(JWK_CLASSES), secret_jwk_families_refused_by_the_code=sorted(refused_real),
-               sequence_features_covered=nfeatures,
+               sequence_features_covered=nfeatures, by_key_id=dict(behaviours_available=len(byid), replayed=len(chosen2), sequence_features_covered=nfeatures2,
+                                                                    unbound_request_kid_classes=KID_CLASSES, caller_kid_header_classes=HDR_KIDS),
                key_families_held=HELD_FAMILIES,
                canary_forms=["raw", "hex", "HEX", "hex spaced", "base64", "base64 raw", "base64url", "base64url raw", "base64 at 3 alignments",
                              "decimal byte list (%v of []byte)", "Go-syntax byte list (%#v)", "decimal big int (%v/%d)", "hex big int (%x)",
@@ -247,6 +312,10 @@ def run(prop, tier, seed, replay=None):
                          "store are not",
                          "keys of other families than EC P-256 get into the store as imported PEM files (pre-populated fs backend) registered "
                          "through Link / Migrate; signature verification by jwx is trusted",
-                         "LD-proof signatures are checked through proof.verificationMethod and the node's own verifier, not by an independent "
+                         "used only by key id: request key ids no key is bound to are the ten classes of MCKidClasses (near misses derived from one "
+                         "existing kid / storage name), on sqlite only (another SQL dialect may compare key ids case- or padding-insensitively); "
+                         "the kid written into an artefact is checked on SignJWT / SignJWS (key store method and sign_jws API) with five classes of "
+                         "caller supplied kid header; audit records are judged only where they name a key id the script knows",
+                        "LD-proof signatures are checked through proof.verificationMethod and the node's own verifier, not by an independent "
                          "canonicaliser"])
     return rep.finish()
